@@ -131,6 +131,7 @@ from iodata.utils import LoadError, DumpError, PrepareDumpError
 seed, maxframes = int(sys.argv[1]), int(sys.argv[2])
 rng = np.random.default_rng(seed)
 tmp = tempfile.mkdtemp()
+__import__("atexit").register(__import__("shutil").rmtree, tmp, True)
 fails, cases = [], 0
 def frame(i, n):
     bonds = np.array([[a, a + 1, 1 + (a % 3)] for a in range(n - 1)]) if n > 1 else None
